@@ -655,7 +655,7 @@ func run(c *hc.Ctx) error {
 		cases[i] = gen(r)
 	}
 	outs := make([]result, n)
-	sem := make(chan struct{}, 6)
+	sem := make(chan struct{}, c.N(6, 12))
 	var wg sync.WaitGroup
 	for i := range cases {
 		wg.Add(1)
